@@ -281,8 +281,7 @@ func runC08(c *report.Ctx) {
 	}
 
 	// ---- (5) a wallet flagged for removal is outside the follower's ready set: no new rows while it is being deleted --
-	ruleReadySet(c)
-	ruleRemovalStepIdempotent(c)
+	ruleReadySet(c, false, true)
 }
 
 // isGlobalBucket: buckets without per-wallet data (frozen by reading txmgr/type.go and syncstore.go).
